@@ -1,4 +1,4 @@
-from . import Units
+from . import Units, Norm
 from ..units import Quantity
 
 class Matter:
@@ -53,8 +53,11 @@ class Matter:
                 'proportion': m.proportion
             }
             if self.number_density:
-                values['n']   = m.proportion*self.number_density
-                values['rho'] = m.proportion*m.component_mass*self.number_density
+                amount = m.proportion   # number of component units in one formula unit
+                if getattr(self, 'norm_type', None)==Norm.MASS_FRACTION:
+                    amount = m.proportion/m.component_mass.value(Units.ATOMIC_MASS)
+                values['n']   = amount*self.number_density
+                values['rho'] = amount*m.component_mass*self.number_density
             if self.volume:
                 values['N'] = values['n']*self.volume
                 values['M'] = values['rho']*self.volume
